@@ -4,6 +4,8 @@ Props/C16.
 -/
 import CoapLite.Model.LinkFormat
 import CoapLite.Lemmas.LinkWrite
+import CoapLite.Lemmas.LinkRtWrite
+import CoapLite.Lemmas.LinkRtScan
 
 namespace CoapLite.Link
 
@@ -38,8 +40,451 @@ def content (input : List Char) : Option (List (List Char × List (List Char × 
     | .link t a, some rest => some ((t.s, (parseAttrs a).map (fun kv => (kv.1.s, unquote kv.2.s))) :: rest)
     | _, _ => none) (some [])
 
+namespace R
+
+/-! ### small list facts -/
+
+theorem last_snoc (x : List Char) (c : Char) : (x ++ [c]).getLast? = some c := by
+  simp [List.getLast?_append]
+
+theorem last_append_ne (x y : List Char) (hy : y ≠ []) : (x ++ y).getLast? = y.getLast? := by
+  rw [List.getLast?_append]
+  cases h : y.getLast? with
+  | none => simp at h; contradiction
+  | some e => rfl
+
+theorem last_cons_ne (c : Char) (y : List Char) (hy : y ≠ []) :
+    (c :: y).getLast? = y.getLast? := by
+  cases y with
+  | nil => contradiction
+  | cons d ds => exact List.getLast?_cons_cons
+
+theorem take_snoc (x : List Char) (c : Char) (rest : List Char) :
+    (x ++ c :: rest).take (x.length + 1) = x ++ [c] := by
+  induction x with
+  | nil => simp
+  | cons e es ih => simpa using ih
+
+theorem takeWhile_stop (p : Char → Bool) (ws : List Char) (c : Char) (r : List Char)
+    (hws : ∀ e ∈ ws, p e = true) (hc : p c = false) :
+    (ws ++ c :: r).takeWhile p = ws := by
+  induction ws with
+  | nil => simp [hc]
+  | cons e es ih =>
+    simp only [List.cons_append]
+    rw [List.takeWhile_cons, hws e (by simp)]
+    simp only [if_true]
+    rw [ih (fun d hd => hws d (List.mem_cons_of_mem _ hd))]
+
+theorem findEq_key (k r : List Char) (hk : ∀ c ∈ k, c ≠ '=') :
+    findEq (k ++ '=' :: r) = some k.length := by
+  induction k with
+  | nil => simp [findEq]
+  | cons c cs ih =>
+    simp only [List.cons_append, List.length_cons]
+    rw [findEq, if_neg (hk c (by simp)), ih (fun d hd => hk d (List.mem_cons_of_mem _ hd))]
+    rfl
+
+theorem unquote_plain (s : List Char) (h : ∀ e, s.head? = some e → e ≠ '"') : unquote s = s := by
+  unfold unquote
+  split
+  · exact absurd rfl (h '"' rfl)
+  · rfl
+
+/-! ### value text -/
+
+theorem valText_shape (a : AttrSpec) :
+    (∃ v, valText a = quote v) ∨ (∀ c ∈ valText a, isAsciiAlnum c = true) := by
+  cases a with
+  | plain k v =>
+    show (∃ w, (if v.any (fun c => !isAsciiAlnum c) then quote v else v) = quote w) ∨
+      (∀ c ∈ (if v.any (fun c => !isAsciiAlnum c) then quote v else v), isAsciiAlnum c = true)
+    by_cases hv : v.any (fun c => !isAsciiAlnum c) = true
+    · rw [if_pos hv]; exact Or.inl ⟨v, rfl⟩
+    · rw [if_neg hv]
+      right
+      intro c hc
+      cases hcc : isAsciiAlnum c with
+      | true => rfl
+      | false =>
+        exact absurd (List.any_eq_true.mpr ⟨c, hc, by simp [hcc]⟩) hv
+  | quoted k v => exact Or.inl ⟨v, rfl⟩
+  | num k n => exact Or.inr (digit_alnum n)
+
+theorem unquote_valText (a : AttrSpec) : unquote (valText a) = (render a).2 := by
+  cases a with
+  | plain k v =>
+    show unquote (if v.any (fun c => !isAsciiAlnum c) then quote v else v) = v
+    by_cases hv : v.any (fun c => !isAsciiAlnum c) = true
+    · rw [if_pos hv]; exact unquote_quote v
+    · rw [if_neg hv]
+      apply unquote_plain
+      intro e he hq
+      subst hq
+      have := List.mem_of_head? he
+      exact hv (List.any_eq_true.mpr ⟨'"', this, by decide⟩)
+  | quoted k v => exact unquote_quote v
+  | num k n =>
+    show unquote (Nat.toDigits 10 n) = Nat.toDigits 10 n
+    apply unquote_plain
+    intro e he hq
+    subst hq
+    have := digit_alnum n _ (List.mem_of_head? he)
+    revert this; decide
+
+theorem render_fst (a : AttrSpec) : (render a).1 = keyOf a := by
+  cases a <;> rfl
+
+theorem valText_transp (a : AttrSpec) (sep : Char) (h1 : '"' ≠ sep)
+    (h2 : ∀ c, isAsciiAlnum c = true → c ≠ sep) : Transp sep (valText a) := by
+  rcases valText_shape a with ⟨v, hv⟩ | h
+  · rw [hv]; exact Transp.quote h1 v
+  · exact Transp.of_all (fun c hc => ⟨h2 c (h c hc), (alnum_props c (h c hc)).2.2.1⟩)
+
+theorem quote_head (v : List Char) : (quote v).head? = some '"' := rfl
+
+theorem quote_last (v : List Char) : (quote v).getLast? = some '"' := by
+  unfold quote
+  rw [last_cons_ne _ _ (by simp), last_snoc]
+
+theorem valText_head (a : AttrSpec) (e : Char) (h : (valText a).head? = some e) :
+    isWs e = false := by
+  rcases valText_shape a with ⟨v, hv⟩ | ha
+  · rw [hv, quote_head] at h
+    cases h; decide
+  · exact (alnum_props e (ha e (List.mem_of_head? h))).2.2.2.2
+
+theorem valText_last (a : AttrSpec) (e : Char) (h : (valText a).getLast? = some e) :
+    isWs e = false ∧ e ≠ ';' ∧ e ≠ ',' := by
+  rcases valText_shape a with ⟨v, hv⟩ | ha
+  · rw [hv, quote_last] at h
+    cases h; decide
+  · have := alnum_props e (ha e (List.mem_of_getLast? h))
+    exact ⟨this.2.2.2.2, this.1, this.2.1⟩
+
+/-! ### attribute text `key=value` -/
+
+theorem keyOk_of (a : AttrSpec) (h : AttrOk a) : KeyOk (keyOf a) := by
+  cases a <;> exact h
+
+theorem attrText_ne_nil (a : AttrSpec) : attrText a ≠ [] := by
+  unfold attrText; simp
+
+theorem attrText_transp_semi (a : AttrSpec) (h : AttrOk a) : Transp ';' (attrText a) := by
+  unfold attrText
+  refine Transp.append (Transp.of_all fun c hc => ?_) (Transp.cons (by decide) (by decide) ?_)
+  · have := keyOk_of a h c hc
+    exact ⟨this.1, this.2.2.2.1⟩
+  · exact valText_transp a ';' (by decide) (fun c hc => (alnum_props c hc).1)
+
+theorem attrText_transp_comma (a : AttrSpec) (h : AttrOk a) : Transp ',' (attrText a) := by
+  unfold attrText
+  refine Transp.append (Transp.of_all fun c hc => ?_) (Transp.cons (by decide) (by decide) ?_)
+  · have := keyOk_of a h c hc
+    exact ⟨this.2.1, this.2.2.2.1⟩
+  · exact valText_transp a ',' (by decide) (fun c hc => (alnum_props c hc).2.1)
+
+theorem attrText_last (a : AttrSpec) (e : Char) (h : (attrText a).getLast? = some e) :
+    e ≠ ';' ∧ e ≠ ',' := by
+  unfold attrText at h
+  rw [last_append_ne _ _ (by simp)] at h
+  cases hv : valText a with
+  | nil =>
+    rw [hv] at h
+    cases h; decide
+  | cons c cs =>
+    rw [last_cons_ne _ _ (by rw [hv]; simp)] at h
+    exact (valText_last a e h).2
+
+theorem attrText_head (a : AttrSpec) (h : AttrOk a) (rest : List Char) (e : Char)
+    (he : (attrText a ++ rest).head? = some e) : e ≠ ';' := by
+  unfold attrText at he
+  cases hk : keyOf a with
+  | nil =>
+    rw [hk] at he
+    cases he; decide
+  | cons c cs =>
+    rw [hk] at he
+    cases he
+    exact (keyOk_of a h e (by rw [hk]; simp)).1
+
+/-! ### attribute blocks -/
+
+/-- `key=value;key=value…` without the leading `;` -/
+def body (a : AttrSpec) (as : List AttrSpec) : List Char := attrText a ++ block as
+
+theorem block_cons (a : AttrSpec) (as : List AttrSpec) : block (a :: as) = ';' :: body a as := rfl
+
+theorem body_ne_nil (a : AttrSpec) (as : List AttrSpec) : body a as ≠ [] := by
+  unfold body attrText; simp
+
+theorem block_transp_comma (as : List AttrSpec) (h : ∀ a ∈ as, AttrOk a) :
+    Transp ',' (block as) := by
+  induction as with
+  | nil => exact Transp.nil _
+  | cons a as ih =>
+    rw [block_cons]
+    exact Transp.cons (by decide) (by decide)
+      (Transp.append (attrText_transp_comma a (h a (by simp)))
+        (ih (fun b hb => h b (List.mem_cons_of_mem _ hb))))
+
+theorem body_last (as : List AttrSpec) : ∀ (a : AttrSpec) (e : Char),
+    (body a as).getLast? = some e → e ≠ ';' ∧ e ≠ ',' := by
+  induction as with
+  | nil =>
+    intro a e h
+    unfold body block at h
+    rw [List.append_nil] at h
+    exact attrText_last a e h
+  | cons b bs ih =>
+    intro a e h
+    unfold body at h
+    rw [block_cons, last_append_ne _ _ (by simp),
+      last_cons_ne _ _ (body_ne_nil b bs)] at h
+    exact ih b e h
+
+theorem block_last (as : List AttrSpec) (e : Char) (h : (block as).getLast? = some e) :
+    e ≠ ',' := by
+  cases as with
+  | nil => simp [block] at h
+  | cons a as =>
+    rw [block_cons, last_cons_ne _ _ (body_ne_nil a as)] at h
+    exact (body_last as a e h).2
+
+/-- the block with `;` trimmed on both sides -/
+theorem block_trim (as : List AttrSpec) (h : ∀ a ∈ as, AttrOk a) :
+    dropWhileEnd (fun c => decide (c = ';')) ((block as).dropWhile (fun c => decide (c = ';'))) =
+      (block as).drop 1 := by
+  cases as with
+  | nil => simp [block, dropWhileEnd]
+  | cons a as =>
+    rw [block_cons, List.dropWhile_cons]
+    simp only [decide_true, if_true, List.drop_succ_cons, List.drop_zero]
+    rw [dw_id _ _ (fun e he => by
+      have := attrText_head a (h a (by simp)) (block as) e he
+      simpa using this)]
+    exact dwe_id _ _ (fun e he => by
+      have := (body_last as a e he).1
+      simpa using this)
+
+/-! ### the attribute parser on a written block -/
+
+theorem trimWs_key (k : List Char) (hk : KeyOk k) (off : Nat) :
+    ((⟨off, k⟩ : Sl).trimBoth isWs).s = k := by
+  show dropWhileEnd isWs (k.dropWhile isWs) = k
+  rw [dw_id _ _ (fun e he => (hk e (List.mem_of_head? he)).2.2.2.2)]
+  exact dwe_id _ _ (fun e he => (hk e (List.mem_of_getLast? he)).2.2.2.2)
+
+theorem trimWs_val (a : AttrSpec) (off : Nat) :
+    ((⟨off, valText a⟩ : Sl).trimBoth isWs).s = valText a := by
+  show dropWhileEnd isWs ((valText a).dropWhile isWs) = valText a
+  rw [dw_id _ _ (fun e he => valText_head a e he)]
+  exact dwe_id _ _ (fun e he => (valText_last a e he).1)
+
+theorem attrNext_out (off : Nat) (a : AttrSpec) (ha : AttrOk a) (tail : List Char)
+    (ht : tail = [] ∨ ∃ rest, tail = ';' :: rest) :
+    ∃ K V R, attrNext ⟨off, attrText a ++ tail⟩ = (some (K, V), R) ∧
+      K.s = keyOf a ∧ V.s = valText a ∧ R.s = tail.drop 1 := by
+  have hne : (attrText a ++ tail).isEmpty = false := by
+    unfold attrText; simp
+  have hfe : findEq (attrText a) = some (keyOf a).length :=
+    findEq_key _ _ (fun c hc => (keyOk_of a ha c hc).2.2.1)
+  have hlast : ∀ e, (attrText a).getLast? = some e → decide (e = ';') = false := by
+    intro e he; simpa using (attrText_last a e he).1
+  have htake : dropWhileEnd (fun c => decide (c = ';'))
+      ((attrText a ++ tail).take (scanSep ';' (attrText a ++ tail) false)) = attrText a := by
+    rcases ht with rfl | ⟨rest, rfl⟩
+    · rw [List.append_nil, (attrText_transp_semi a ha).scan_end, List.take_length]
+      exact dwe_id _ _ hlast
+    · rw [(attrText_transp_semi a ha).scan_sep]
+      rw [take_snoc, dwe_snoc _ _ _ (by simp)]
+      exact dwe_id _ _ hlast
+  have hdrop : (attrText a ++ tail).drop (scanSep ';' (attrText a ++ tail) false) = tail.drop 1 := by
+    rcases ht with rfl | ⟨rest, rfl⟩
+    · rw [List.append_nil, (attrText_transp_semi a ha).scan_end]; simp
+    · rw [(attrText_transp_semi a ha).scan_sep, List.drop_append]; simp
+  unfold attrNext
+  simp only [hne, Bool.false_eq_true, if_false, Sl.take, Sl.trimEnd, Sl.drop, htake, hfe, hdrop]
+  refine ⟨_, _, _, rfl, ?_, ?_, rfl⟩
+  · have : (attrText a).take (keyOf a).length = keyOf a := by
+      unfold attrText; exact List.take_left
+    rw [this]; exact trimWs_key _ (keyOk_of a ha) _
+  · have : (attrText a).drop ((keyOf a).length + 1) = valText a := by
+      unfold attrText; rw [List.drop_append]; simp
+    rw [this]; exact trimWs_val a _
+
+theorem attrAll_nil (fuel off : Nat) : attrAll fuel ⟨off, []⟩ = [] := by
+  cases fuel with
+  | zero => rfl
+  | succ f => rfl
+
+def kvOut (kv : Sl × Sl) : List Char × List Char := (kv.1.s, unquote kv.2.s)
+
+theorem attrAll_body (as : List AttrSpec) : ∀ (a : AttrSpec) (off fuel : Nat),
+    (∀ b ∈ a :: as, AttrOk b) → (body a as).length < fuel →
+    (attrAll fuel ⟨off, body a as⟩).map kvOut = (a :: as).map render := by
+  induction as with
+  | nil =>
+    intro a off fuel h hf
+    cases fuel with
+    | zero => omega
+    | succ f =>
+      obtain ⟨K, V, ⟨ro, rs⟩, hn, hk, hv, hr⟩ := attrNext_out off a (h a (by simp)) [] (Or.inl rfl)
+      have hb : body a [] = attrText a ++ [] := rfl
+      rw [hb, attrAll, hn]
+      simp only [List.drop_nil] at hr
+      subst hr
+      simp only [attrAll_nil, List.map_cons, List.map_nil, kvOut, hk, hv, unquote_valText]
+      rw [← render_fst]
+  | cons b bs ih =>
+    intro a off fuel h hf
+    cases fuel with
+    | zero => omega
+    | succ f =>
+      obtain ⟨K, V, ⟨ro, rs⟩, hn, hk, hv, hr⟩ :=
+        attrNext_out off a (h a (by simp)) (block (b :: bs)) (Or.inr ⟨body b bs, rfl⟩)
+      have hb : body a (b :: bs) = attrText a ++ block (b :: bs) := rfl
+      rw [hb, attrAll, hn]
+      simp only [block_cons, List.drop_succ_cons, List.drop_zero] at hr
+      subst hr
+      have hlen : (body b bs).length < f := by
+        rw [hb, block_cons] at hf
+        simp only [List.length_append, List.length_cons] at hf
+        omega
+      simp only [List.map_cons]
+      rw [ih b ro f (fun c hc => h c (List.mem_cons_of_mem _ hc)) hlen]
+      simp only [kvOut, hk, hv, unquote_valText, List.map_cons]
+      rw [← render_fst]
+
+theorem parseAttrs_block (as : List AttrSpec) (h : ∀ a ∈ as, AttrOk a) (A : Sl)
+    (hA : A.s = (block as).drop 1) : (parseAttrs A).map kvOut = as.map render := by
+  obtain ⟨ao, s⟩ := A
+  simp only at hA
+  subst hA
+  unfold parseAttrs
+  cases as with
+  | nil => simp [block, attrAll_nil]
+  | cons a as =>
+    simp only [block_cons, List.drop_succ_cons, List.drop_zero]
+    exact attrAll_body as a ao _ h (Nat.lt_succ_self _)
+
+/-! ### the link parser on a written link -/
+
+theorem linkNext_out (off : Nat) (ws t : List Char) (as : List AttrSpec) (tail : List Char)
+    (hws : ∀ c ∈ ws, isAsciiWs c = true) (ht : ∀ c ∈ t, c ≠ '>') (has : ∀ a ∈ as, AttrOk a)
+    (htail : tail = [] ∨ ∃ rest, tail = ',' :: rest) :
+    ∃ T A R, linkNext ⟨off, ws ++ (outLink (t, as) ++ tail)⟩ = (some (.link T A), R) ∧
+      T.s = t ∧ A.s = (block as).drop 1 ∧ R.s = tail.drop 1 := by
+  have hshape : ws ++ (outLink (t, as) ++ tail) = ws ++ '<' :: (t ++ '>' :: (block as ++ tail)) := by
+    simp [outLink]
+  rw [hshape]
+  have hne : (ws ++ '<' :: (t ++ '>' :: (block as ++ tail))).isEmpty = false := by simp
+  have htw : (ws ++ '<' :: (t ++ '>' :: (block as ++ tail))).takeWhile isAsciiWs = ws :=
+    takeWhile_stop _ _ _ _ hws (by decide)
+  have hgt : scanGt (t ++ '>' :: (block as ++ tail)) = t.length + 1 := scanGt_target _ _ ht
+  have htgt : dropWhileEnd (fun c => decide (c = '>'))
+      ((t ++ '>' :: (block as ++ tail)).take (t.length + 1)) = t := by
+    rw [take_snoc, dwe_snoc _ _ _ (by simp)]
+    exact dwe_id _ _ (fun e he => by simpa using ht e (List.mem_of_getLast? he))
+  have hak : (t ++ '>' :: (block as ++ tail)).drop (t.length + 1) = block as ++ tail := by
+    rw [List.drop_append]; simp
+  have hlast : ∀ e, (block as).getLast? = some e → decide (e = ',') = false := by
+    intro e he; simpa using block_last as e he
+  have htake : dropWhileEnd (fun c => decide (c = ','))
+      ((block as ++ tail).take (scanSep ',' (block as ++ tail) false)) = block as := by
+    rcases htail with rfl | ⟨rest, rfl⟩
+    · rw [List.append_nil, (block_transp_comma as has).scan_end, List.take_length]
+      exact dwe_id _ _ hlast
+    · rw [(block_transp_comma as has).scan_sep]
+      rw [take_snoc, dwe_snoc _ _ _ (by simp)]
+      exact dwe_id _ _ hlast
+  have hdrop : (block as ++ tail).drop (scanSep ',' (block as ++ tail) false) = tail.drop 1 := by
+    rcases htail with rfl | ⟨rest, rfl⟩
+    · rw [List.append_nil, (block_transp_comma as has).scan_end]; simp
+    · rw [(block_transp_comma as has).scan_sep, List.drop_append]; simp
+  unfold linkNext
+  simp only [hne, Bool.false_eq_true, if_false, htw, Sl.drop, Sl.take, Sl.trimEnd, Sl.trimBoth,
+    Sl.trimStart, List.drop_left, ne_eq, not_true_eq_false, List.drop_succ_cons, List.drop_zero,
+    hgt, htgt, hak, htake, hdrop]
+  exact ⟨_, _, _, rfl, rfl, block_trim as has, rfl⟩
+
+/-! ### the document -/
+
+theorem linkAll_nil (fuel off : Nat) : linkAll fuel ⟨off, []⟩ = [] := by
+  cases fuel with
+  | zero => rfl
+  | succ f => rfl
+
+/-- the folding step of `content` -/
+def stepC (it : Item) (acc : Option (List (List Char × List (List Char × List Char)))) :
+    Option (List (List Char × List (List Char × List Char))) :=
+  match it, acc with
+  | .link t a, some rest => some ((t.s, (parseAttrs a).map kvOut) :: rest)
+  | _, _ => none
+
+theorem content_eq (input : List Char) :
+    content input = (parseLinks input).foldr stepC (some []) := rfl
+
+def linkOut (l : List Char × List AttrSpec) : List Char × List (List Char × List Char) :=
+  (l.1, l.2.map render)
+
+theorem wsOf_ws (nl : Bool) : ∀ c ∈ wsOf nl, isAsciiWs c = true := by
+  cases nl <;> decide
+
+theorem linkAll_doc (nl : Bool) (d : Doc) : ∀ (l : List Char × List AttrSpec) (ws : List Char)
+    (off fuel : Nat), (∀ c ∈ ws, isAsciiWs c = true) → DocWF (l :: d) →
+    (ws ++ (outLink l ++ sepText nl d)).length < fuel →
+    (linkAll fuel ⟨off, ws ++ (outLink l ++ sepText nl d)⟩).foldr stepC (some []) =
+      some ((l :: d).map linkOut) := by
+  induction d with
+  | nil =>
+    intro l ws off fuel hws hwf hf
+    cases fuel with
+    | zero => omega
+    | succ f =>
+      obtain ⟨t, as⟩ := l
+      have hl := hwf (t, as) (by simp)
+      obtain ⟨T, A, ⟨ro, rs⟩, hn, hT, hA, hR⟩ :=
+        linkNext_out off ws t as [] hws hl.1 hl.2 (Or.inl rfl)
+      simp only [List.drop_nil] at hR
+      subst hR
+      have hs : sepText nl [] = [] := rfl
+      rw [hs, linkAll, hn]
+      simp only [linkAll_nil, List.foldr_cons, List.foldr_nil, stepC, hT,
+        parseAttrs_block as hl.2 A hA, List.map_cons, List.map_nil, linkOut]
+  | cons l' d ih =>
+    intro l ws off fuel hws hwf hf
+    cases fuel with
+    | zero => omega
+    | succ f =>
+      obtain ⟨t, as⟩ := l
+      have hl := hwf (t, as) (by simp)
+      have hs : sepText nl (l' :: d) = ',' :: (wsOf nl ++ (outLink l' ++ sepText nl d)) := rfl
+      obtain ⟨T, A, ⟨ro, rs⟩, hn, hT, hA, hR⟩ :=
+        linkNext_out off ws t as (sepText nl (l' :: d)) hws hl.1 hl.2 (Or.inr ⟨_, hs⟩)
+      rw [hs] at hR
+      simp only [List.drop_succ_cons, List.drop_zero] at hR
+      subst hR
+      have hlen : (wsOf nl ++ (outLink l' ++ sepText nl d)).length < f := by
+        rw [hs] at hf
+        simp only [List.length_append, List.length_cons] at hf ⊢
+        omega
+      rw [linkAll, hn]
+      simp only [List.foldr_cons]
+      rw [ih l' (wsOf nl) ro f (wsOf_ws nl) (fun x hx => hwf x (List.mem_cons_of_mem _ hx)) hlen]
+      simp only [stepC, hT, parseAttrs_block as hl.2 A hA, List.map_cons, linkOut]
+
+end R
+
 theorem parse_write (nl : Bool) (d : Doc) (h : DocWF d) :
     content (writeDoc noFault nl d).sink = some (d.map (fun l => (l.1, l.2.map render))) := by
-  sorry
+  rw [R.writeDoc_sink, R.content_eq]
+  cases d with
+  | nil => rfl
+  | cons l d =>
+    unfold parseLinks
+    have := R.linkAll_doc nl d l [] 0 ((R.outDoc nl (l :: d)).length + 1) (by simp) h
+      (Nat.lt_succ_self _)
+    exact this
 
 end CoapLite.Link
